@@ -83,3 +83,17 @@ def _gnu_py(b, k):
 
 elfhash32.py = _elf_py
 gnuhash32.py = _gnu_py
+
+
+@_native
+def u32at(I, B, o, little):
+    """the 32-bit word at offset o in the file's byte order"""
+    from pyvc.calls import rd_int
+    from pyvc.vals import is_sym
+    arr = B.arr if hasattr(B, 'arr') else B
+    if isinstance(little, bool):
+        return rd_int(arr, o, 4, little, False)
+    return z3.If(little, rd_int(arr, o, 4, True, False), rd_int(arr, o, 4, False, False))
+
+
+u32at.py = lambda B, o, little: int.from_bytes(bytes(B[o:o + 4]), 'little' if little else 'big')
